@@ -32,11 +32,12 @@ CHECKS = {
  "C08": ("exploration", "group scenario with DEFAULT callbacks and autocommit: every OffsetCommit request seen on the wire may only cover records that some member returned from a poll and then polled again; final committed offsets only cover delivered records", BASE),
  "C09": ("exploration", "one member issues CommitOffsets/CommitOffsetsSync/CommitRecords/CommitUncommittedOffsets sequences under commit-path faults and coordinator moves; oracle: arrival order of OffsetCommit requests at the coordinator respects issue order, final broker value and CommittedOffsets equal the last successful commit", BASE),
  "C27": ("exploration", "cooperative-sticky groups under churn: every SyncGroup plan sent by the leader is checked against the ownership claims of the same generation's JoinGroup metadata; generations completed after membership settled are bounded", BASE + "; the space of prior ownership states is only sampled through the histories the churn produces"),
- "C31": ("exploration", "system-level half: with BlockRebalanceOnPoll no revoke/lost callback starts between a poll that returned records and the following AllowRebalance; deadlock-freedom through the bounded-liveness checks of the group scenario", BASE + "; the gate and the synctest mutexes are additionally exercised in isolation by the micro scenario when present"),
+ "C31": ("exploration", "system-level half: with BlockRebalanceOnPoll no revoke/lost callback starts between a poll that returned records and the following AllowRebalance; deadlock-freedom through the bounded-liveness checks of the group scenario", BASE + "; 60% of the plans are the micro scenarios (gate functions through a verif-tagged wrapper around a bare consumer; synctest Mutex/RWMutex under lock/rlock/trylock mixes) with occupancy oracles"),
  "C10": ("exploration", "GroupTransactSession pipeline (input topic -> one output per input) with 1-3 session members that join, close and restart (also mid-transaction), following the documented error protocol (an error from Begin/End closes and replaces the member), under transactional/group-path faults, leader moves and coordinator rehash; oracle on the reference read_committed view of the output: no duplicate, nothing missing after heal", BASE),
  "C11": ("fault_enumeration", "transactional producer workloads; every single fault (kill_req, kill_resp, fabricated retriable/fatal coordinator errors incl. CONCURRENT_TRANSACTIONS, rewritten responses, stall past the transaction time-out) at every position of InitProducerID/AddPartitionsToTxn/Produce/EndTxn, with KIP-890p2 on and off, plus sampled double faults and coordinator moves; oracle: reported commit => visible, reported abort/error => never visible (also after two later commits), unconfirmed outcome (broker executed a commit the client could not confirm) => atomic", BASE + "; the enumeration is complete for the listed positions/kinds of the base workloads, sampled beyond"),
  "C14": ("exploration", "hook recorder in every produce run: buffered/unbuffered exactly once per record with the promise's error", BASE + "; fetch-side hooks are checked inside the consumer scenarios (classes C14/fetch-*)"),
  "C18": ("exploration", "wire monitor decodes every Produce request that reaches a broker with kmsg + an independent record-batch decoder: one batch per partition, CRC, counts, deltas, timestamps, producer fields, sequence reuse against the broker's genuine verdict, request <= BrokerMaxWriteBytes, batch <= ProducerBatchMaxBytes; knobs force the limits (1-4 KiB)", BASE + "; produce v0-v2 (message sets) are not reachable because kfake rejects them"),
+ "C30": ("exploration", "micro scenario (no network): the real ring[int] and workLoop of pkg/kgo through verif-tagged wrappers, 2-5 pushers (blocking and forced), worker spawn on first push exactly as the callers do it, kill, growth and shrink, bounded and unbounded rings; 2-4 signallers against the work latch incl. hard finishes with the documented compensation; seeded yields before every lock/cond/atomic; oracle: accepted => handed to exactly one worker invocation, per-pusher and real-time push order, one worker at a time, dead ring rejects, no pusher or worker left blocked, no pending work without a worker", "preemption explored at the synchronisation points of pkg/kgo's ring.go/atomic_maybe_work.go (seeded yields + seeded run-queue choices); sampled, not exhaustive; an uncompensated hardFinish may strand work by design and is not generated"),
  "C39": ("exploration", "direct consumers selecting by topic list, regex with exclusion, or explicit partitions while topics are created (matching, non-matching, internal), grown and deleted and the application adds/removes/purges; oracle: every returned record is selected as of its poll, nothing after remove/purge, everything selected is consumed after heal", BASE),
  "C40": ("exploration", "logs built with chosen timestamps, transactions and DeleteRecords; consumer started with a generated Offset (At/Relative/AtStart/AtEnd/AfterMilli, three ways of passing it, read_committed or not) under ListOffsets faults and leader moves; oracle: first returned record == reference computation of the documented rules on the raw log", BASE + "; AtCommitted is not covered by this scenario"),
 }
